@@ -45,3 +45,24 @@ def random_docs(schema_name: str, n: int, rng: random.Random, size=1.0, max_dept
         except Exception:  # generator produced something the library refuses to build: not a case
             continue
     return sch, js, out
+
+
+def shaped_test_docs():
+    """Hand-shaped documents of the bundled test schema: textblocks with several differently marked inline children
+    next to a code block (which forbids marks), also nested.  (schema, exported js, [(tokens, document)])"""
+    from . import proj, schemas
+    sch, js = schemas.build("test")
+    em, strong = sch.marks["em"].create(), sch.marks["strong"].create()
+    link = sch.marks["link"].create({"href": "u"})
+    tx = lambda c, *ms: sch.text(c, list(ms))                                  # noqa: E731
+    P = lambda *k: sch.node("paragraph", None, list(k))                       # noqa: E731
+    CB = lambda *k: sch.node("code_block", None, list(k))                     # noqa: E731
+    H = lambda *k: sch.node("heading", {"level": 1}, list(k))                 # noqa: E731
+    img = sch.node("image", {"src": "s"})
+    docs = [
+        sch.node("doc", None, [CB(tx("foo")), P(tx("bar "), tx("baz", em), img)]),
+        sch.node("doc", None, [P(tx("a"), tx("b", strong), tx(" c")), CB(tx("x")), H(tx("t "), tx("u", em), tx(" v"))]),
+        sch.node("doc", None, [sch.node("blockquote", None, [CB(tx("q")), P(tx("r "), tx("s", link), tx(" t", em))]), P(tx("z"))]),
+        sch.node("doc", None, [CB(), P(tx("plain "), tx("marked", em, strong)), CB(tx("y"))]),
+    ]
+    return sch, js, [(proj.proj(d), d) for d in docs]
